@@ -28,4 +28,26 @@ PROPS = {
         'assumptions': ['each lruSessionCache method runs atomically under its mutex (sync.Mutex semantics)', 'pointer identity of *ClientSessionState values is what Get returns (numbered by the harness)'],
         'trusted': ['modelled: lruSessionCache.Put/Get/NewLRUClientSessionCache; container/list and Go maps trusted'],
     },
+    'C04': {
+        'technique': 'Lean 4 theorems over the GREASE arithmetic (all seeds via low-byte reduction + kernel decide over the byte table; QUIC ids/versions by omega) + exhaustive/differential correspondence with GetBoringGREASEValue, ApplyPreset and the QUIC generators',
+        'level_text': 'Kernel-checked for every uint16 seed word and every drawn value: GetBoringGREASEValue is always 0x?A?A and depends exactly on one nibble of this connection\'s seed (functional freshness); after de-duplication the two GREASE extensions always differ; the GREASE group substituted into key_share equals the one in supported_groups; 31N+27 ids below 2^62; versions 0x?a?a?a?a. Tie: exhaustive 65536 seeds (thorough), all parrots x random Config.Rand streams, QUIC generators under a logged crypto/rand.Reader with a Lean replica of rand.Int.',
+        'level_note': 'variation across connections is a statement about the entropy source and is only measured; theorem = functional dependence on the connection\'s 10 GREASE bytes. crypto/rand.Int replicated in the model and validated by correspondence.',
+        'families': {'grease_val': (3000, 65536), 'grease_hello': (760, 38000), 'grease_quic': (600, 60000)},
+        'rule': 'grease_val: seed words (thorough: all 65536) x 5 indices; grease_hello: every parrot id x fresh deterministic Config.Rand, values read back from the built handshake state; grease_quic: GetGREASEID/GetGREASEVersion/ID()/VersionInformation.Value under logged crypto/rand. non-trivial = spec containing GREASE placeholders, or a QUIC draw',
+        'trivial_tag': r'^(nospec|gext=0,)$',
+        'required_tags': [r'grease_hello:gext=2', r'grease_hello:.*dedup', r'grease_quic:over=valid', r'grease_quic:.*retry=y', r'grease_val:nibble=0'],
+        'assumptions': ['the 10-byte read from Config.Rand is the GREASE seed read (exactly one read of that length is observed and checked)', 'crypto/rand.Reader can be replaced for the duration of a case'],
+        'trusted': ['modelled: GetBoringGREASEValue, the de-duplication and substitutions of ApplyPreset, GetGREASEID, GetGREASEVersion, IsGREASEID; math/big rand.Int replicated'],
+    },
+    'C30': {
+        'technique': 'Lean 4 theorems over a replica of math/rand Int63n/Int31n/int31n/Intn/Perm/Shuffle and prng.Intn/Int63n/Range/FlipWeightedCoin for every stream + differential correspondence on the tapped SHAKE stream',
+        'level_text': 'Kernel-checked for every stream and every argument: Intn/Int63n in [0,n) and exactly 0 without consuming for n<=0; Range in [max(min,0),max] incl. the overflowing span; Perm/Shuffle are permutations; coin corners over an abstract float layer. Determinism = functionality of the model, tied by running the same seed twice and by predicting every result from the tapped stream.',
+        'level_note': 'SHAKE256/HKDF are not modelled (the stream is an input); "differs across salts" is cryptographic and only sampled; concurrency safety is exercised (partition-of-stream check), not proved.',
+        'families': {'prng': (3000, 300000), 'prng_conc': (40, 2000)},
+        'rule': 'random seeds x salted/unsalted x op sequences of Intn/Int63n/Range/FlipWeightedCoin/Perm/Uint64 with boundary arguments (<=0, 1, powers of two +-1, 2^31, 2^63-1, MinInt64; weights 0,1,>1,<0,NaN,inf,tiny); non-trivial = sequence with >= 2 different helper kinds',
+        'trivial_tag': r'^(plain|salted),.?$',
+        'required_tags': [r'prng:salted', r'prng:plain', r'prng:.*C', r'prng:.*R', r'prng:.*P', r'prng_conc:threads'],
+        'assumptions': ['a second prng built from the same seed yields the stream the first one consumes (that is the determinism clause itself and is also checked)'],
+        'trusted': ['modelled: prng helpers and math/rand algorithms (Go 1.24); sha3/hkdf trusted; float64 semantics of the coin validated by correspondence only'],
+    },
 }
